@@ -123,7 +123,16 @@ func openStorage(dir string, opt Options) (*storage, error) {
 	if s.log, err = log.Open(filepath.Join(dir, "log"), 0700, logOpt); err != nil {
 		return nil, err
 	}
-	if s.log.LastIndex() < s.snaps.index {
+	discardLog := s.log.LastIndex() < s.snaps.index
+	if s.log.Contains(s.snaps.index) {
+		// an installed snapshot replaces a log that has another term at its index
+		var term uint64
+		if term, err = s.getEntryTerm(s.snaps.index); err != nil {
+			return nil, err
+		}
+		discardLog = term != s.snaps.term
+	}
+	if discardLog {
 		// crashed after publishing a snapshot, before discarding the log it replaces
 		if err = s.log.Reset(s.snaps.index); err != nil {
 			return nil, opError(err, "Log.Reset(%d)", s.snaps.index)
